@@ -231,42 +231,55 @@ impl Writer {
         let mut write_plan: Vec<(Block, u64, usize)> = Vec::new();
         let mut batch_idx = 0;
 
-        // Use a LOCAL offset for planning, don't update the writer's offset yet
+        // Plan against LOCAL copies of the active block and offset. Nothing is published while the
+        // batch can still fail: blocks filled by this batch are handed to the reader chain, and the
+        // writer is switched to the last block, only after every write and flush has succeeded.
+        let mut plan_block = block.clone();
         let mut planning_offset = *cur_offset;
+        let mut pending_seals: Vec<Block> = Vec::new();
 
         while batch_idx < batch.len() {
             let data = batch[batch_idx];
             let need = (PREFIX_META_SIZE as u64) + (data.len() as u64);
-            let available = block.limit - planning_offset;
+            let available = plan_block.limit - planning_offset;
 
             if available >= need {
                 // Fits in current block
-                write_plan.push((block.clone(), planning_offset, batch_idx));
+                write_plan.push((plan_block.clone(), planning_offset, batch_idx));
                 planning_offset += need;
                 batch_idx += 1;
             } else {
                 // Need to seal and allocate new block
                 debug_print!(
                     "[batch] sealing block_id={}, used={}, need={}, limit={}",
-                    block.id,
+                    plan_block.id,
                     planning_offset,
                     need,
-                    block.limit
+                    plan_block.limit
                 );
-                FileStateTracker::set_block_unlocked(block.id as usize);
-                let mut sealed = block.clone();
+                let mut sealed = plan_block.clone();
                 sealed.used = planning_offset;
-                sealed.mmap.flush()?;
-                let _ = self.reader.append_block_to_chain(&self.col, sealed);
 
                 // Allocate new block
                 // SAFETY: We hold locks, so this writer has exclusive ownership
-                let new_block =
-                    unsafe { self.allocator.alloc_block(need.max(DEFAULT_BLOCK_SIZE))? };
+                let prepared = sealed
+                    .mmap
+                    .flush()
+                    .and_then(|_| unsafe { self.allocator.alloc_block(need.max(DEFAULT_BLOCK_SIZE)) });
+                let new_block = match prepared {
+                    Ok(b) => b,
+                    Err(e) => {
+                        for block_id in revert_info.allocated_block_ids.iter() {
+                            FileStateTracker::set_block_unlocked(*block_id as usize);
+                        }
+                        return Err(e);
+                    }
+                };
                 debug_print!("[batch] allocated new block_id={}", new_block.id);
 
+                pending_seals.push(sealed);
                 revert_info.allocated_block_ids.push(new_block.id);
-                *block = new_block;
+                plan_block = new_block;
                 planning_offset = 0;
             }
         }
@@ -299,7 +312,10 @@ impl Writer {
                     planning_offset,
                     total_bytes_usize,
                 ) {
-                    Ok(()) => return Ok(()),
+                    Ok(()) => {
+                        self.publish_batch_blocks(&mut block, pending_seals, plan_block);
+                        return Ok(());
+                    }
                     Err(e) => {
                         if e.to_string().contains("io_uring init failed") {
                             debug_print!(
@@ -366,6 +382,7 @@ impl Writer {
         }
 
         // NOW update the writer's offset to make data visible to readers
+        self.publish_batch_blocks(&mut block, pending_seals, plan_block);
         *cur_offset = planning_offset;
 
         debug_print!(
@@ -375,6 +392,16 @@ impl Writer {
             self.col
         );
         Ok(())
+    }
+
+    /// Publishes the block switches of a batch whose writes and flushes have all succeeded: every block
+    /// the batch filled goes to the reader chain, in order, and the last planned block becomes active.
+    fn publish_batch_blocks(&self, block: &mut Block, pending_seals: Vec<Block>, plan_block: Block) {
+        for sealed in pending_seals {
+            FileStateTracker::set_block_unlocked(sealed.id as usize);
+            let _ = self.reader.append_block_to_chain(&self.col, sealed);
+        }
+        *block = plan_block;
     }
 
     #[cfg(target_os = "linux")]
